@@ -21,10 +21,8 @@ def lattice(tier):
 
 
 def lattice4(tier):
-    # depth-4 level on a thinner item lattice (complete over that lattice)
-    if tier == "quick":
-        return None
-    T, S, A = 4, (16, 48, 112), (16, 64)
+    # depth-4 level (a hole left by a dead range between two live ones needs 4 ranges) on a 3-step lattice
+    T, S, A = (3, (16, 48, 64, 112), (16, 64)) if tier == "quick" else (4, (16, 48, 64, 112), (16, 64))
     iv = [(s, e) for s in range(T) for e in range(s, T)]
     return [(s, e, sz, al) for (s, e) in iv for sz in S for al in A]
 
@@ -147,7 +145,7 @@ def _eval(specs, tier, stats):
     """All allocator variants on one ordered set. Returns list of (variant-name, kwargs, tags)."""
     bad = []
     n = len(specs)
-    variants = [("greedy", {}), ("linear", {}), ("hill", {})]
+    variants = [("greedy", {})] if tier == "depth4" else [("greedy", {}), ("linear", {}), ("hill", {})]
     if tier == "thorough" and n >= 2:
         peak = ref.peak_live(specs)
         variants += [("hill", dict(max_iter=0)), ("hill", dict(max_iter=1, mem_limit=peak)), ("hill", dict(max_iter=10, mem_limit=max(peak - 16, 0)))]
@@ -178,8 +176,9 @@ def _shard(args):
     out = []
     cnt = 0
     nontrivial = 0
-    for rest in itertools.product(items, repeat=n - 1):
-        specs = (first,) + rest
+    prefix = first if isinstance(first[0], tuple) else (first,)
+    for rest in itertools.product(items, repeat=n - len(prefix)):
+        specs = prefix + rest
         cnt += 1
         if n >= 2 and ref.has_live_overlap(specs):
             nontrivial += 1
@@ -207,7 +206,8 @@ def run(ctx):
     items4 = lattice4(ctx.tier)
     if items4:
         for first in items4:
-            shards.append((first, items4, 4, "quick"))  # base variants only at depth 4
+            for second in items4:
+                shards.append(((first, second), items4, 4, "depth4" if ctx.tier == "quick" else "quick"))  # base variants only at depth 4
     # order shards by seed (changes scheduling only, never the space)
     rnd = random.Random(ctx.seed)
     rnd.shuffle(shards)
@@ -231,7 +231,7 @@ def run(ctx):
              "(+ equivalence / duplicate-constant / iteration-limit / memory-limit variants)" % (N, len(items)),
         samples=[dict(specs=sample, greedy=run_allocator("greedy", sample), hill=run_allocator("hill", sample))],
         exhaustive=True,
-        bound="n<=%d over %d items complete%s" % (N, len(items), "; n=4 over %d items complete (base variants)" % len(items4) if items4 else ""),
+        bound="n<=%d over %d items complete; n=4 over %d items complete (%s)" % (N, len(items), len(items4), "Greedy (LinearAlloc ignores liveness)" if ctx.tier == "quick" else "all three, base variants"),
         states=c.get("sets", 0),
     )
     return ctx.finish("exploration", cov, [
